@@ -27,6 +27,10 @@ pub struct BlobM {
     /// an index file exists and describes this many records (stale if smaller than records.len())
     pub index_file: Option<usize>,
     pub bloom_offloaded: bool,
+    /// the blob object was built from its file at start-up (not created in this session): its
+    /// filters were deserialized, its file handle reopened -- implementation state that no
+    /// query shows but that later behaviour may depend on
+    pub reopened: bool,
 }
 
 impl BlobM {
@@ -37,6 +41,7 @@ impl BlobM {
             index_on_disk: false,
             index_file: None,
             bloom_offloaded: false,
+            reopened: false,
         }
     }
 
@@ -400,6 +405,7 @@ impl RefStore {
             // close dumps the active blob; start-up dumps everything but the new active one
             b.dump();
             b.bloom_offloaded = false;
+            b.reopened = true;
         }
         self.next_id = self.ever_ids.iter().next_back().map_or(0, |m| m + 1);
         self.active = None;
